@@ -720,14 +720,14 @@ def simplify_if_control_flow(source: str) -> str:
             continue
 
         if additions and replacements:
-            source = processing.alter_code(
+            new_source = processing.alter_code(
                 source,
                 root,
                 replacements=replacements,
                 additions=additions,
                 priority=("additions", "replacements"),
             )
-
-            return simplify_if_control_flow(source)
+            if new_source != source:  # Unchanged if the lines involved are opted out
+                return simplify_if_control_flow(new_source)
 
     return source
